@@ -213,7 +213,7 @@ PANIC_CEILING = {
     # counted by reading on the pinned tree (after the fix: commits). Wildcard arms of COVER-checked matches are included;
     # whether they are reachable for admissible values is decided by C14-R1.
     "storage::hashmap": 6, "storage::ndarray": 0, "storage::arrow": 8, "storage::csv": 2,
-    "storage::zarr::sync_impl": 6, "storage::zarr::async_impl": 5, "storage::zarr::common": 1,
+    "storage::zarr::sync_impl": 6, "storage::zarr::async_impl": 6, "storage::zarr::common": 1,  # async: 6 since async blocks are call-graph nodes (the site inside an async block was invisible before)
 }
 
 
